@@ -7526,7 +7526,7 @@ tmcg_openpgp_armor_t CallasDonnerhackeFinneyShawThayerRFC4880::ArmorDecode
 		std::cerr << "ERROR: nested armor block found" << std::endl;
 		return TMCG_OPENPGP_ARMOR_UNKNOWN; // nested armor block found
 	}
-	if (((spos + 24) < rpos) && ((rpos + 2) < cpos))
+	if (((spos + 24) < rpos) && ((rpos + 2) <= cpos))
 	{
 		std::string chksum = "";
 		std::string data = in.substr(rpos + 2, cpos - rpos - 2);
